@@ -810,6 +810,52 @@ func rulePeriodicReader(c *Ctx, mx *PkgIndex, rule string) {
 		}
 	}
 	c.Check(good, rule, "sdk/metric|(*PeriodicReader).Shutdown|cancel → <-done → swap → collect → export → exporter.Shutdown", at(mx.M, sh.Pos()), "final collection happens after the run loop stopped and before the exporter is shut down", "shutdown order broken: "+why)
+	// the memory the final collection writes into is not shared with a run loop that may still be exporting: it comes from the
+	// pool / is fresh, or Shutdown has joined the run goroutine unconditionally (a receive from done that is not one arm of a
+	// select with a way out) before it touches it
+	{
+		sharedArg := ""
+		var argPos token.Pos
+		inspectNoLit(lit.Body(), func(n ast.Node) bool {
+			call, ok := n.(*ast.CallExpr)
+			if !ok || !(pCol(call) || pExp(call)) || len(call.Args) == 0 {
+				return true
+			}
+			a := unparen(call.Args[len(call.Args)-1])
+			if id, isID := a.(*ast.Ident); isID {
+				if d := g.LocalDef(info.Uses[id]); d != nil {
+					a = unparen(d)
+				}
+			}
+			if u, isU := a.(*ast.UnaryExpr); isU && u.Op == token.AND {
+				a = unparen(u.X)
+			}
+			if fv, b := fieldOf(info, a); fv != nil && b != nil && sh.Recv() != nil && sameVar(info, b, sh.Recv()) {
+				sharedArg, argPos = exprStr(call.Args[len(call.Args)-1])+" (= the reader's field "+fv.Name()+")", call.Pos()
+			}
+			return true
+		})
+		if sharedArg != "" {
+			// every receive from done in the literal: is one of them a plain statement that dominates the use?
+			joined := false
+			comm := map[ast.Stmt]bool{}
+			inspectNoLit(lit.Body(), func(n ast.Node) bool {
+				if cc, ok := n.(*ast.CommClause); ok && cc.Comm != nil {
+					comm[cc.Comm] = true
+				}
+				return true
+			})
+			for _, x := range g.Nodes {
+				es, ok := x.N.(*ast.ExprStmt)
+				if !ok || comm[es] || !pDone(es.X) {
+					continue
+				}
+				joined = true
+			}
+			c.Check(joined, rule, "sdk/metric|(*PeriodicReader).Shutdown|scratch memory shared with the run loop is used only after an unconditional join", at(mx.M, argPos), "plain receive from done",
+				"the final collection writes into "+sharedArg+" while the run goroutine may still be exporting from it (the wait for done has a way out): the in-flight delta batch is overwritten — lost — and the final batch is exported twice")
+		}
+	}
 	// export only if collect succeeded (both in Shutdown and collectAndExport)
 	errNil := func(g *FG, info *types.Info, errVar types.Object) func(*GEdge) bool {
 		return func(e *GEdge) bool {
